@@ -31,10 +31,13 @@ type crashCfg struct {
 }
 
 // compilerUnproven runs the compiler's bounds-check report for the packages and returns the set
-// of "file:line:col" positions (relative to the repo) whose bounds check was NOT eliminated.
+// of "file:line:col" positions (relative to the repo) whose bounds check was NOT eliminated as
+// safe: the checks that remain ("Found ...") and the checks the prove pass removed because it
+// showed that they always FAIL ("Disproved ..." - such a site is absent from the check_bce report
+// too, but it panics whenever it is reached).
 func compilerUnproven(c *Ctx, pkgs []string) (map[string]bool, error) {
 	out := map[string]bool{}
-	args := []string{"build", "-gcflags=-l -d=ssa/check_bce/debug=1"}
+	args := []string{"build", "-gcflags=-l -d=ssa/check_bce/debug=1,ssa/prove/debug=1"}
 	for _, p := range pkgs {
 		args = append(args, "./"+p)
 	}
@@ -42,7 +45,7 @@ func compilerUnproven(c *Ctx, pkgs []string) (map[string]bool, error) {
 	cmd.Dir = c.Repo
 	cmd.Env = append(os.Environ(), "GOOS="+c.GOOS, "GOARCH="+c.GOARCH, "CGO_ENABLED=0")
 	b, err := cmd.CombinedOutput()
-	re := regexp.MustCompile(`^(?:\./)?([^:\s]+\.go):(\d+):(\d+): Found (IsInBounds|IsSliceInBounds)`)
+	re := regexp.MustCompile(`^(?:\./)?([^:\s]+\.go):(\d+):(\d+): (?:Found|Disproved) (IsInBounds|IsSliceInBounds)`)
 	n := 0
 	for _, line := range strings.Split(string(b), "\n") {
 		if m := re.FindStringSubmatch(strings.TrimSpace(line)); m != nil {
@@ -56,13 +59,16 @@ func compilerUnproven(c *Ctx, pkgs []string) (map[string]bool, error) {
 	if err != nil {
 		// compile errors alongside diagnostics
 		for _, line := range strings.Split(string(b), "\n") {
-			if strings.Contains(line, ": ") && !strings.Contains(line, "Found Is") && !strings.HasPrefix(line, "#") && strings.TrimSpace(line) != "" {
+			if strings.Contains(line, ": ") && !strings.Contains(line, "Found Is") && !proveNoise.MatchString(line) && !strings.HasPrefix(line, "#") && strings.TrimSpace(line) != "" {
 				return nil, fmt.Errorf("go build for bounds-check report failed: %s", line)
 			}
 		}
 	}
 	return out, nil
 }
+
+// proveNoise: the other lines the prove pass prints with debug=1.
+var proveNoise = regexp.MustCompile(`: (Proved|Disproved|Induction variable)`)
 
 func (c *Ctx) posKey(p token.Pos) string {
 	q := c.Fset.Position(p)
